@@ -22,6 +22,8 @@ LEVEL_TEXT = ('Decides from the source: both input implementations split lines w
               'other line-boundary characters and the line/column values reported at offset == len(text) are not decided.')
 TECHNIQUE += "; origin tracing of every ParseInfo field to the invoked rule's RuleInfo and key; edge-position interpretation of all input implementations at len(text) and on the empty text"
 LEVEL_TEXT += " Added clauses: the rule name in ParseInfo is the invoked rule's (not the top of the call stack); line queries at the end of text and on the empty text do not index out of range."
+TECHNIQUE += '; delivery of the ParseInfo (set_parseinfo interpreted on nodes with a set_parseinfo method, with a parseinfo attribute, and plain values; AST.set_parseinfo stores under the key its property reads)'
+LEVEL_TEXT += ' Added clause: parse information reaches both dict-like ASTs and model nodes, and nothing when it is off.'
 LEVEL_NOTE = 'Trusted: str.splitlines(True) ends lines at \\n, \\r and \\r\\n (and keeps the terminators).'
 EXPLANATION = ('Static analysis of /repo sources, TatSu not imported. split_block_lines is resolved through helper functions to '
                'its splitting primitive; regex literals are compiled to NFAs by the checker and compared by language inclusion.')
